@@ -89,12 +89,15 @@ SingleS(ml) == [ty |-> "single", mods |-> ml, key |-> "S", tomods |-> <<>>, tote
 RepS(ml, r) == [ty |-> "reponly", mods |-> ml, key |-> "S", rep |-> r]
 Progs4 == UNION {UNION {{ab \o <<RowAS(ml), SingleS(ml), RepS(ml, r)>>, ab \o <<SingleS(ml), RowAS(ml), RepS(ml, r)>>, ab \o <<RepS(ml, r), RowAS(ml), SingleS(ml)>>}:
                          ml \in ModLists(ab), r \in {Disabled, [kind |-> "Special", tomods |-> <<>>, toterm |-> <<"F24">>, delay |-> 180, interval |-> 30]}}: ab \in AliasBlocks}
-Progs == SetToSeq(Progs1 \cup Progs2 \cup Progs3 \cup Progs4 \cup CharProgs)
+\* what a repeat-only entry must leave alone: the output modifiers and the absorbing list of the mapping it adjusts
+Rich(ab) == {s \in Singles(ab): s.rep = Normal /\ (s.abs # <<>> \/ s.tomods # <<>>)}
+Progs5 == UNION {UNION {{ab \o <<it, ro>>: ro \in {x \in RepOnlys(ab): x.key = "A" /\ x.mods = it.mods}}: it \in Rich(ab)}: ab \in AliasBlocks}
+Progs == SetToSeq(Progs1 \cup Progs2 \cup Progs3 \cup Progs4 \cup Progs5 \cup CharProgs)
 
 Sp0 == [bare |-> TRUE, lower |-> FALSE, explicit |-> FALSE]
 Sp1 == [bare |-> FALSE, lower |-> TRUE, explicit |-> TRUE]
 
-ASSUME PrintT(<<"GENERATED", Len(Progs), Cardinality(Progs1), Cardinality(Progs2), Cardinality(Progs3), Cardinality(Progs4), Cardinality(CharProgs)>>)
+ASSUME PrintT(<<"GENERATED", Len(Progs), Cardinality(Progs1), Cardinality(Progs2), Cardinality(Progs3), Cardinality(Progs4), Cardinality(Progs5), Cardinality(CharProgs)>>)
 ASSUME LET ps == Progs IN
        ndJsonSerialize(IOEnv.OUT, [i \in 1..Len(ps) |-> [id |-> i, json |-> Render(ps[i], Sp0), json2 |-> Render(ps[i], Sp1), expect |-> Expand(ps[i])]])
 VARIABLE x
